@@ -340,7 +340,8 @@ def finish(res, search=None):
     pid = res.pid
     kf, _fixed = known_findings(pid)
     known_keys = {e["key"] for e in kf}
-    if res.broken and search is not None and not res.failing:
+    if res.broken and search is not None and all(k in known_keys for k, _ in res.failing):
+        # (failing inputs that are listed known findings do not explain a broken obligation)
         log("a proof obligation or tie broke (%s); searching the real code for a "
             "failing input ..." % ", ".join(res.broken))
         try:
